@@ -17,6 +17,9 @@ type childFn func(args []string)
 var checks = map[string]checkFn{}
 var levels = map[string]string{}
 var children = map[string]childFn{}
+var caseFns = map[string]core.CaseFunc{}
+
+func registerCase(mode string, f core.CaseFunc) { caseFns[mode] = f }
 
 func register(id, level string, f checkFn) { checks[id] = f; levels[id] = level }
 func registerChild(mode string, f childFn)  { children[mode] = f }
@@ -53,6 +56,20 @@ func main() {
 	case "child":
 		if len(os.Args) < 3 {
 			usage()
+		}
+		if os.Args[2] == "cases" {
+			// child cases <ID> <tier> <seed> <mode>
+			if len(os.Args) < 7 {
+				usage()
+			}
+			os.Setenv("VERIF_SEED", os.Args[5])
+			c := core.NewCtx(os.Args[3], os.Args[4])
+			cf, ok := caseFns[os.Args[6]]
+			if !ok {
+				core.Fatalf("unknown case mode %q", os.Args[6])
+			}
+			core.ChildCases(c, cf)
+			return
 		}
 		f, ok := children[os.Args[2]]
 		if !ok {
